@@ -1,11 +1,19 @@
 /-
-Model of `machine.MapClear`:  `for k := range m { delete(m, k) }`.
+Model of `machine.MapClear`.
 
-A Go map is modelled as a duplicate-free association list. Go's `range` over a map visits the
-entries in an unspecified order and never produces an entry that was removed before being
-reached; the loop body removes exactly the key just produced. The iteration order is therefore a
-parameter (`pick` chooses which remaining entry is produced next): the theorems hold for every
-choice. Core Lean only.
+A Go map is modelled as an association list. The body of `MapClear` is the builtin `clear(m)`, which
+removes EVERY entry (Go specification, "Clear": "deletes all entries, resulting in an empty map") —
+`mapClear m = []`; that the builtin does so, also for keys that are not equal to themselves, is
+observed on the real implementation by the correspondence check (key kinds `f64`, `iface`, `fstruct`
+plant NaN keys).
+
+Until the repair 9ef6e58 the body was `for k := range m { delete(m, k) }`. That loop is modelled too
+(`loopClear`): Go's `range` produces the entries in an unspecified order (the parameter `order`:
+any list containing every entry of the map), `delete(m, k)` removes the entries whose key is `==` to
+`k` — and Go's `==` on keys (`eq`) need not be reflexive: a float NaN, or a struct or interface value
+containing one, differs from itself. `Lemmas/MapClear.lean` proves that the loop empties the map when
+`eq` is reflexive on its keys and that it leaves every NaN-like key behind, whatever the order.
+Core Lean only.
 -/
 namespace GooseVerif.Model.MapClear
 
@@ -20,22 +28,18 @@ def insert {κ ν : Type} [DecidableEq κ] (m : GoMap κ ν) (k : κ) (v : ν) :
 def lookup {κ ν : Type} [DecidableEq κ] (m : GoMap κ ν) (k : κ) : Option ν :=
   (m.find? (fun p => p.1 = k)).map (·.2)
 
-/-- One loop iteration: `range` produces some remaining entry (index chosen by `pick`, reduced
-modulo the current size), the body deletes its key. -/
-def stepClear {κ ν : Type} [DecidableEq κ] (pick : Nat) (m : GoMap κ ν) : GoMap κ ν :=
-  match m[pick % m.length]? with
-  | some p => erase m p.1
-  | none => m
+/-- `delete(m, k)` when key comparison is `eq` (element key on the left, as in Go's lookup). -/
+def eraseBy {κ ν : Type} (eq : κ → κ → Bool) (m : GoMap κ ν) (k : κ) : GoMap κ ν :=
+  m.filter (fun p => !eq p.1 k)
 
-/-- The whole loop under the iteration order `picks`; it runs until the map is empty
-(`fuel` iterations are allowed; `mapClear_terminates` shows `m.length` suffice). -/
-def runClear {κ ν : Type} [DecidableEq κ] : Nat → (Nat → Nat) → GoMap κ ν → GoMap κ ν
-  | 0, _, m => m
-  | fuel + 1, picks, m =>
-    if m.isEmpty then m else runClear fuel (fun i => picks (i + 1)) (stepClear (picks 0) m)
+/-- The pre-repair body `for k := range m { delete(m, k) }`: `range` produces the entries of
+`order` (an entry removed before it is reached is not produced by Go; deleting its key again would
+change nothing that matters below, so it is not filtered out here). -/
+def loopClear {κ ν : Type} (eq : κ → κ → Bool) (order : List (κ × ν)) (m : GoMap κ ν) : GoMap κ ν :=
+  order.foldl (fun acc p => eraseBy eq acc p.1) m
 
-def mapClear {κ ν : Type} [DecidableEq κ] (picks : Nat → Nat) (m : GoMap κ ν) : GoMap κ ν :=
-  runClear m.length picks m
+/-- `clear(m)`. -/
+def mapClear {κ ν : Type} (_m : GoMap κ ν) : GoMap κ ν := []
 
 /-- `Assume` / `Assert`: `if !c { panic(…) }`. `true` = the call panics. -/
 def assumePanics (c : Bool) : Bool := !c
